@@ -2004,7 +2004,11 @@ class Scheduler:
 
         # Once a job has been recorded to the cache, we don't need to keep around
         # the job, since if we see it again, we'll simply download the result.
-        self._pending_jobs.pop((job.eval_hash, job.context_hash), None)
+        # Only remove our own registration: an equivalent job that opted out of CSE
+        # (or was collapsed) must not unregister a job that is still running.
+        pending_key = (job.eval_hash, job.context_hash)
+        if self._pending_jobs.get(pending_key) is job:
+            self._pending_jobs.pop(pending_key)
 
     def _record_job_tags(self, job: Job) -> None:
         """
